@@ -1048,9 +1048,15 @@ def run(ctx: Context):
                 env = {0: b32dec(v["lease_secret"]), 1: b32dec(v["storage_index"]), 2: b32dec(v["tubid"])}
             except Exception as e:
                 raise AnalysisError("test vector %d is not base32: %s" % (i, e))
-            got = b32enc(conc(code["renewal"], env))
             r.site("%s vector %d" % (REF, i))
             r.count(1)
+            if not isinstance(code["renewal"], T):
+                # the chain does not even fold to a byte-string term (already reported above); no vector can hold
+                r.violation(F("bucket_renewal_secret_hash"), F("bucket_renewal_secret_hash").loc(),
+                            "published test vector %d: the code's renewal-secret chain is %r, not a hash of the three "
+                            "inputs" % (i, code["renewal"]))
+                continue
+            got = b32enc(conc(code["renewal"], env))
             r.require(got == v["expected"], F("bucket_renewal_secret_hash"), F("bucket_renewal_secret_hash").loc(),
                       "published test vector %d: the code's renewal-secret chain %s gives %s, the specification "
                       "publishes %s" % (i, show(code["renewal"]), got.decode(), v["expected"].decode()))
@@ -1058,7 +1064,8 @@ def run(ctx: Context):
     # ---- 5. call-site chains ---------------------------------------------------
     with ctx.rule("C17.5", "R6/E6", "lease-secret chain at its call sites: SecretHolder hashes the lease secret read "
                   "from private/secret; upload and mutable filenode hash it with the file's storage index and then "
-                  "with the server's lease seed; renew/cancel reach allocate_buckets / add_lease unswapped", expected=18) as r:
+                  "with the server's lease seed; renew/cancel reach allocate_buckets / add_lease unswapped, to the server whose seed was "
+                  "hashed and under the storage index that was hashed", expected=20) as r:
         # SecretHolder
         SH = "client:SecretHolder"
         init = idx.func(SH + ".__init__")
@@ -1180,11 +1187,23 @@ def run(ctx: Context):
         ab = calls_in_func(q, "allocate_buckets")
         if not ab:
             raise AnchorVanished("ServerTracker.query does not call allocate_buckets")
+        qn = FlowNorm(q)
         for c in ab:
             r.site(q, c, "allocate_buckets")
             got = [attr_path(a) for a in c.args[:3]]
             r.require(got == ["self.storage_index", "self.renew_secret", "self.cancel_secret"], q, q.loc(c),
                       "allocate_buckets is given %s ; specified (storage_index, renew_secret, cancel_secret)" % got)
+            # the secrets were hashed with the lease seed of `server`: they must be sent to that server
+            node = [n for n in q.cfg().nodes if any(x is c for x in node_calls(n))][0]
+            rcv = qn.norm(node, c.func.value) if isinstance(c.func, ast.Attribute) else "?"
+            r.require(rcv == norm_src("self._server.get_storage_server()"), q, q.loc(c),
+                      "allocate_buckets is sent to %s ; the secrets are derived for self._server" % rcv)
+        sc = store_chains(idx, stinit, "self._server")
+        if not sc:
+            raise AnchorVanished("ServerTracker.__init__ does not store self._server")
+        for n, c in sc:
+            r.require(c == ("leaf", "server"), stinit, stinit.loc(n.ast),
+                      "self._server is bound to %s ; the secrets are derived for `server`" % show_chain(c))
 
         # immutable checker (add-lease while checking)
         CK = "immutable.checker:Checker"
@@ -1227,6 +1246,30 @@ def run(ctx: Context):
             want = [gbp[1], norm_src("self._get_renewal_secret(%s.get_lease_seed())" % gbp[0]),
                     norm_src("self._get_cancel_secret(%s.get_lease_seed())" % gbp[0])]
             r.require(got == want, gb, gb.loc(c), "add_lease(%s) ; specified add_lease(%s)" % (", ".join(got), ", ".join(want)))
+            rcv = gbn.norm(node, c.func.value) if isinstance(c.func, ast.Attribute) else "?"
+            r.require(rcv == norm_src("%s.get_storage_server()" % gbp[0]), gb, gb.loc(c),
+                      "add_lease is sent to %s ; the secrets are derived with the lease seed of %s" % (rcv, gbp[0]))
+        # ... and the lease is added under the storage index the file secrets were hashed with
+        gcalls = [cs for cs in get_callgraph(idx).calls_named("_get_buckets")
+                  if _owner_cls(cs.fn) is gb.cls]
+        if not gcalls:
+            raise AnchorVanished("nobody calls Checker._get_buckets")
+        for cs in gcalls:
+            a = arg(cs.call, 1, gbp[1])
+            r.site(cs.fn, cs.call, "_get_buckets(storage index)")
+            cn = [n for n in cs.fn.cfg().nodes if any(x is cs.call for x in node_calls(n))]
+            got = FlowNorm(cs.fn).norm(cn[0], a) if (a is not None and cn) else None
+            r.require(got == norm_src("self._verifycap.get_storage_index()"), cs.fn, cs.fn.loc(cs.call),
+                      "_get_buckets (which adds the lease) is given the storage index %s ; the file secrets are hashed "
+                      "with self._verifycap.get_storage_index()" % got)
+        sc = store_chains(idx, cki, "self._verifycap")
+        if not sc:
+            raise AnchorVanished("Checker.__init__ does not store self._verifycap")
+        vp = first_positional_params(cki)[0]
+        for n, c in sc:
+            r.require(c == ("leaf", vp), cki, cki.loc(n.ast),
+                      "self._verifycap (whose storage index the file secrets are hashed with) is bound to %s, not to "
+                      "the constructor argument %s" % (show_chain(c), vp))
 
         # mutable filenode
         MF = "mutable.filenode:MutableFileNode"
@@ -1254,7 +1297,8 @@ def run(ctx: Context):
     with ctx.rule("C17.6", "R6/E6", "key chains: writekey->readkey->storage index in writeable SSK/MDMF caps, "
                   "readkey->storage index in read-only caps, key->storage index in CHK caps and at upload; "
                   "derive_mutable_keys; the node's keys come from its cap; data key, dirnode child-cap key and the "
-                  "convergent key are derived identically by writer and reader", expected=28) as r:
+                  "convergent key are derived identically by writer and reader; the AES objects are keyed with "
+                  "the derived keys and the stored salt is the salt that was hashed", expected=38) as r:
         for cname in ("WriteableSSKFileURI", "WriteableMDMFFileURI"):
             fn = idx.func("uri:%s.__init__" % cname)
             wk = first_positional_params(fn)[0]
@@ -1305,6 +1349,14 @@ def run(ctx: Context):
                               src(got_fn, a0), kp))
         if not found:
             raise AnchorVanished("_get_encryptor._got no longer derives the storage index")
+        # ... and that hash is what the uploader publishes as the file's storage index
+        sc = store_chains(idx, got_fn, "self._storage_index")
+        if not sc:
+            raise AnchorVanished("_get_encryptor._got does not store self._storage_index")
+        for n, c in sc:
+            r.site(got_fn, n.ast, "self._storage_index")
+            r.require(c == H("storage_index_hash", ("leaf", kp)), got_fn, got_fn.loc(n.ast),
+                      "the upload's storage index is %s ; specified storage_index_hash(<the AES key>)" % show_chain(c))
 
         # derive_mutable_keys
         dk = idx.func("mutable.common:derive_mutable_keys")
@@ -1342,6 +1394,14 @@ def run(ctx: Context):
             for n, c in sc:
                 r.site(ic, n.ast, attr)
                 r.require(c == L(want), ic, ic.loc(n.ast), "%s = %s ; specified %s" % (attr, show_chain(c), want))
+        sc = store_chains(idx, ic, "self._uri")
+        if not sc:
+            raise AnchorVanished("init_from_cap does not store self._uri")
+        capp = first_positional_params(ic)[0]
+        for n, c in sc:
+            r.site(ic, n.ast, "self._uri")
+            r.require(c == ("leaf", capp), ic, ic.loc(n.ast), "self._uri (the source of the node's keys) is bound to %s, "
+                      "not to the cap %s the node is created from" % (show_chain(c), capp))
         wks = [(n, c) for (n, c) in store_chains(idx, ic, "self._writekey") if c != ("leaf", "None")]
         if not wks:
             raise AnchorVanished("init_from_cap does not store the writekey")
@@ -1382,11 +1442,12 @@ def run(ctx: Context):
         # writer / reader agreement of symmetric keys
         pairs = [
             ("mutable data key", "ssk_readkey_data_hash",
-             [("mutable.publish:Publish._encode_segment.encrypt", None), ("mutable.retrieve:Retrieve._decrypt_segment.decrypt", None)],
+             [("mutable.publish:Publish._encode_segment.encrypt", "create_encryptor"),
+              ("mutable.retrieve:Retrieve._decrypt_segment.decrypt", "create_decryptor")],
              ["salt", "readkey"]),
         ]
         for what, hname, fns, roles in pairs:
-            for q, _ in fns:
+            for q, aes_ctor in fns:
                 fn = idx.func(q)
                 fnorm = FlowNorm(fn)
                 seen = 0
@@ -1401,6 +1462,85 @@ def run(ctx: Context):
                                 what, hname, ", ".join(got), ", ".join(roles)))
                 if not seen:
                     raise AnchorVanished("%s no longer derives the %s" % (q, what))
+                # the derived key is the key the AES object is made with
+                seen = 0
+                want = H(hname, *[("leaf", x) for x in roles])
+                for n in fn.cfg().nodes:
+                    for c in calls_at(n, aes_ctor):
+                        seen += 1
+                        a0 = arg(c, 0)
+                        got = chain(idx, fn, fnorm, n, a0) if a0 is not None else ("leaf", "<missing>")
+                        r.site(fn, c, "%s(%s)" % (aes_ctor, what))
+                        r.require(got == want, fn, fn.loc(c), "%s is keyed with %s ; specified %s" % (
+                            aes_ctor, show_chain(got), show_chain(want)))
+                if not seen:
+                    raise AnchorVanished("%s no longer calls %s" % (q, aes_ctor))
+        # writer: the salt that is stored next to the ciphertext is the salt the key was derived from, and the read
+        # key comes from the node (i.e. from the cap); reader: likewise
+        penc = idx.func("mutable.publish:Publish._encode_segment.encrypt")
+        pn = FlowNorm(penc)
+        rets = [n for n in penc.cfg().find(is_return) if isinstance(n.ast.value, ast.Tuple) and n.ast.value.elts]
+        if not rets:
+            raise AnchorVanished("Publish._encode_segment.encrypt no longer returns (salt, crypttext)")
+        for n in rets:
+            r.site(penc, n.ast, "stored salt")
+            got = pn.norm(n, n.ast.value.elts[0])
+            r.require(got == "salt", penc, penc.loc(n.ast), "the salt handed on for storage is %s, not the salt the data "
+                      "key was derived from" % got)
+        pes = penc.parent
+        pesn = FlowNorm(pes)
+        epar = first_positional_params(penc)
+        seen = 0
+        for n in pes.cfg().nodes:
+            for c in node_calls(n):
+                av = None
+                if isinstance(c.func, ast.Name) and c.func.id == penc.name:
+                    av = arg(c, 0, epar[0])
+                else:
+                    for i, a in enumerate(c.args):
+                        if isinstance(a, ast.Name) and a.id == penc.name and i + 1 < len(c.args):
+                            av = c.args[i + 1]
+                if av is None:
+                    continue
+                seen += 1
+                r.site(pes, c, "read key given to encrypt")
+                got = pesn.norm(n, av)
+                r.require(got == "self.readkey", pes, pes.loc(c), "the segment is encrypted under a key derived from %s ; "
+                          "specified self.readkey" % got)
+        if not seen:
+            raise AnchorVanished("_encode_segment no longer runs encrypt(readkey)")
+        pcls = idx.cls("mutable.publish:Publish")
+        seen = 0
+        for mname, meth in pcls.methods.items():
+            if not any(isinstance(x, ast.Attribute) and x.attr == "readkey" and isinstance(x.ctx, ast.Store)
+                       for x in func_own_nodes(meth)):
+                continue
+            for n, c in store_chains(idx, meth, "self.readkey"):
+                seen += 1
+                r.site(meth, n.ast, "self.readkey")
+                r.require(c == L("self._node.get_readkey()"), meth, meth.loc(n.ast),
+                          "Publish.readkey = %s ; specified self._node.get_readkey()" % show_chain(c))
+        if not seen:
+            raise AnchorVanished("Publish no longer stores self.readkey")
+        rdec = idx.func("mutable.retrieve:Retrieve._decrypt_segment.decrypt")
+        rds = rdec.parent
+        rdn = FlowNorm(rds)
+        seen = 0
+        for n in rds.cfg().nodes:
+            if "readkey" in node_stores(n):
+                v = assign_value(n, "readkey")
+                seen += 1
+                r.site(rds, n.ast, "readkey")
+                got = rdn.norm(n, v) if v is not None else None
+                r.require(got == norm_src("self._node.get_readkey()"), rds, rds.loc(n.ast),
+                          "the segment is decrypted under a key derived from %s ; specified self._node.get_readkey()" % got)
+        if not seen:
+            raise AnchorVanished("_decrypt_segment no longer binds readkey")
+        grk = idx.func("mutable.filenode:MutableFileNode.get_readkey")
+        for n in grk.cfg().find(is_return):
+            r.site(grk, n.ast)
+            got = attr_path(n.ast.value) if n.ast.value is not None else None
+            r.require(got == "self._readkey", grk, grk.loc(n.ast), "get_readkey returns %s ; specified self._readkey" % got)
         # dirnode child write caps
         enc = idx.func("dirnode:_encrypt_rw_uri")
         eps = first_positional_params(enc)
@@ -1467,6 +1607,125 @@ def run(ctx: Context):
                     ok = True
         r.require(ok, gp_fn, gp_fn.loc(), "get_all_encoding_parameters no longer yields (k, happy, n, segsize): the "
                   "convergent key would be fed different parameters")
+
+    # ---- 8. the convergent key hashes the file --------------------------------------
+    with ctx.rule("C17.8", "E1/E3", "convergent key (file-encoding.rst: SHA-256d of tag, encoding parameters, convergence "
+                  "secret *and the contents of the file*): every block read from the uploadable's file handle is fed "
+                  "to the convergence hasher before the next read / before digest(), some execution does feed the "
+                  "hasher, and the key that is kept is that hasher's digest", expected=3) as r:
+        cv = idx.func("immutable.upload:FileHandle._get_encryption_key_convergent")
+        g = cv.nested.get("_got")
+        if g is None:
+            raise AnchorVanished("_get_encryption_key_convergent._got")
+        cfg = g.cfg()
+        fnorm = FlowNorm(g)
+        hcalls = [c for n in cfg.nodes for c in node_calls(n)
+                  if (hu_func(idx, g.module, c) is not None and hu_func(idx, g.module, c).name == "convergence_hasher")]
+        if not hcalls:
+            raise AnchorVanished("_get_encryption_key_convergent._got creates no convergence hasher")
+
+        def hasher_of(n, c, tail):
+            """the convergence_hasher(..) call whose result c = <hasher>.<tail>(...) is invoked on, or None"""
+            if not (isinstance(c, ast.Call) and isinstance(c.func, ast.Attribute) and c.func.attr == tail):
+                return None
+            rcv = fnorm.resolve(n, c.func.value)
+            for hc in hcalls:
+                if rcv is hc:
+                    return hc
+            return None
+
+        # the key that is kept (and returned) is the digest of a convergence hasher
+        sk = [n for n in cfg.find(stores("self._key"))]
+        if not sk:
+            raise AnchorVanished("_get_encryption_key_convergent._got no longer stores self._key")
+        key_hashers = []
+        for n in sk:
+            v = assign_value(n, "self._key")
+            e = fnorm.resolve(n, v) if v is not None else None
+            r.site(g, n.ast, "self._key")
+            hc = hasher_of(n, e, "digest") if (isinstance(e, ast.Call) and not e.args and not e.keywords) else None
+            if hc is None:
+                r.violation(g, g.loc(n.ast), "the convergent key is %s ; specified <convergence hasher>.digest()" % (
+                    fnorm.norm(n, v) if v is not None else None))
+            elif not any(hc is x for x in key_hashers):
+                key_hashers.append(hc)
+
+        # blocks: local names bound to <self._filehandle>.read(..)
+        reads = {}
+        for n in cfg.nodes:
+            if n.kind != "stmt" or not isinstance(n.ast, ast.Assign) or len(n.ast.targets) != 1 \
+                    or not isinstance(n.ast.targets[0], ast.Name):
+                continue
+            v = n.ast.value
+            if isinstance(v, ast.Call) and call_tail(v) == "read" and isinstance(v.func, ast.Attribute) \
+                    and attr_path(fnorm.resolve(n, v.func.value)) == "self._filehandle":
+                reads[n.id] = n.ast.targets[0].id
+        if not reads:
+            raise AnchorVanished("_get_encryption_key_convergent._got no longer reads blocks from self._filehandle")
+
+        def empty_fact(n, lab, var):
+            f = fnorm.edge_fact(n, lab)
+            if f is None:
+                return False
+            op, a, b = f
+            ln = norm_src("len(%s)" % var)
+            if op == "false" and a == var:
+                return True
+            if op == "==" and {a, b} in ({ln, "0"}, {var, norm_src('b""')}):
+                return True
+            if (op, a, b) in (("<", ln, "1"), ("<=", ln, "0")):
+                return True
+            return False
+
+        r.site(g, hcalls[0], "blocks read are fed")
+        r.site(g, hcalls[0], "some execution feeds the hasher")
+        for hcall in key_hashers:
+            feeds = {}
+            digests = set()
+            for n in cfg.nodes:
+                for c in node_calls(n):
+                    if hasher_of(n, c, "update") is hcall and len(c.args) == 1 and isinstance(c.args[0], ast.Name) \
+                            and c.args[0].id in reads.values():
+                        feeds[n.id] = c.args[0].id
+                    if hasher_of(n, c, "digest") is hcall:
+                        digests.add(n.id)
+
+            def transfer(n, lab, nxt, st):
+                pending, fed, bad = st
+                if bad:
+                    return None                                  # the violating state is terminal
+                if isinstance(lab, tuple) and isinstance(lab[1], ast.Constant) and bool(lab[1].value) != (lab[0] == "T"):
+                    return None                                  # `while True:` is never left by its false edge
+                if lab == "exc":
+                    return None
+                # effect of leaving n
+                if n.id in feeds and feeds[n.id] == pending:
+                    pending, fed = None, True
+                if n.id in reads:
+                    pending = reads[n.id]
+                if pending is not None and isinstance(lab, tuple) and empty_fact(n, lab, pending):
+                    pending = None                               # an empty block: nothing to feed
+                # effect of arriving at nxt with a block in hand
+                if pending is not None and (nxt.id in reads or nxt.id in digests):
+                    return (pending, fed, True)
+                return (pending, fed, False)
+
+            visited, parent = explore(cfg, (None, False, False), transfer)
+            r.count(len(visited))
+            bad = sorted((ps for ps in visited if ps[1][2]), key=lambda ps: ps[0])
+            reported = set()
+            for ps in bad:
+                if ps[0] in reported:
+                    continue
+                reported.add(ps[0])
+                tn = cfg.nodes[ps[0]]
+                r.violation(g, g.loc(tn.ast), "a block `%s` read from the file reaches `%s` without having been fed to "
+                            "the convergence hasher: the convergent key (and with it the storage index) no longer covers "
+                            "the whole file" % (ps[1][0], src(g, tn.ast)), witness(cfg, parent, ps))
+            if not bad:
+                r.require(any(nid in digests and st[1] for (nid, st) in visited), g, g.loc(hcall),
+                          "no execution of _got feeds file data to the convergence hasher whose digest becomes the key: "
+                          "the convergent key does not depend on the contents of the file")
 
     # ---- 7. the repository's own known-answer vectors --------------------------
     with ctx.rule("C17.7", "R5", "the folded descriptors, evaluated with hashlib, reproduce the known-answer vectors "
@@ -1543,6 +1802,12 @@ def _spec_tagged_hasher(tag, truncate_to=None):
     h = SpecHasher(truncate_to)
     h.parts.append(ns(tag))
     return h
+
+
+def _owner_cls(fn):
+    while fn is not None and fn.cls is None:
+        fn = fn.parent
+    return fn.cls if fn is not None else None
 
 
 def _rename_leaf(c, old, new):
